@@ -31,21 +31,29 @@ def canon_for_model(j, optional_absent_is_none=False):
             if "default" not in p and (p.get("typ") or "").startswith("Optional["):
                 p["default"] = {"t": "str", "v": "```(None)```"}
     # prose is compared modulo the default sentence and the single full stop set_default_doc inserts
+    # ... and modulo line breaks / runs of whitespace (wrapping is layout)
     for _, p in j["params"]:
         if "doc" in p:
-            p["doc"] = irutil.prose_core(p["doc"])
+            p["doc"] = _ws(irutil.prose_core(_ws(p["doc"])))
     if j.get("returns") and "doc" in j["returns"]:
-        j["returns"]["doc"] = irutil.prose_core(j["returns"]["doc"])
+        j["returns"]["doc"] = _ws(irutil.prose_core(_ws(j["returns"]["doc"])))
+    if j.get("doc") is not None:
+        j["doc"] = _ws(j["doc"])
     return irutil.canon_ir(j)
 
 
-def pres_diff(want, got, absent_may_become):
+def _ws(x):
+    return None if x is None else " ".join(x.split())
+
+
+def pres_diff(want, got, absent_may_become, ws=False):
     """
     Python mirror of Kinds.PresIR: names/order, prose, types, explicit defaults kept; an absent (or None)
     default may only become what `absent_may_become(typ)` allows. -> list of differences
     """
     out = []
-    if (want.get("doc") or "").strip() != (got.get("doc") or "").strip():
+    nz = _ws if ws else (lambda x: x)
+    if nz((want.get("doc") or "").strip()) != nz((got.get("doc") or "").strip()):
         out.append("summary %r -> %r" % (want.get("doc"), got.get("doc")))
     wn, gn = list(want["params"].keys()), list(got["params"].keys())
     if wn != gn:
@@ -55,7 +63,7 @@ def pres_diff(want, got, absent_may_become):
     def entry(n, w, g):
         if (w.get("typ") or None) != (g.get("typ") or None):
             out.append("%s: typ %r -> %r" % (n, w.get("typ"), g.get("typ")))
-        if irutil.prose_core(w.get("doc") or None) != irutil.prose_core(g.get("doc") or None):
+        if nz(irutil.prose_core(nz(w.get("doc") or None))) != nz(irutil.prose_core(nz(g.get("doc") or None))):
             out.append("%s: prose %r -> %r" % (n, w.get("doc"), g.get("doc")))
         if "default" in w and w["default"] not in irutil.NONE_TYPES:
             if not irutil.same_default(True, w["default"], "default" in g, g.get("default")):
@@ -191,7 +199,10 @@ class AstKindProp(Prop):
         full = r.random() < 0.65
         irj = G.gen_ir(r, rich=r.random() < 0.6, p_typ=1.0 if full else 0.85, p_doc=1.0 if full else 0.85)
         irj = self.restrict(irj, r)
-        c = {"ir": irutil.ir_to_json(irj), "opts": self.gen_opts(r)}
+        opts = self.gen_opts(r)
+        if opts.get("word_wrap") and r.random() < 0.7:
+            irj = G.lengthen(r, irj)
+        c = {"ir": irutil.ir_to_json(irj), "opts": opts}
         run.dist["n_params"][len(irj["params"])] += 1
         for _, p in irj["params"]:
             run.dist["typ"][(p.get("typ") or "<none>").split("[")[0]] += 1
@@ -271,7 +282,7 @@ class AstKindProp(Prop):
 
             return [{"what": "round trip raised", "exc": exc_kind(e), "tb": traceback.format_exc()[-500:]}]
         fails = []
-        d = pres_diff(ir, back, self.absent_may_become)
+        d = pres_diff(ir, back, self.absent_may_become, ws=bool(c["opts"].get("word_wrap")))
         if d:
             fails.append({"what": "round trip changed the interface", "diffs": d, "source": kinds.to_source(self.kind, art)[:1500]})
         fails += self.extra_checks(c, ir, art, back)
@@ -295,9 +306,12 @@ class AstKindProp(Prop):
                 return "AST-empty-or-dotted-string-default"
             if d is not None and "efaults" in (p.get("doc") or "") and not G.has_own_default_sentence(p):
                 return "C17-D9-prose-mentions-defaults"
-        if c["opts"].get("word_wrap") and _would_wrap(ir):
-            return "C18-D20-wrapping-changes-content"
-        return self.classify_kind(c, fl)
+        k = self.classify_kind(c, fl)
+        if k:
+            return k
+        if c.get("opts", {}).get("word_wrap") and self.kind_of(c) in ("function", "method") and not c["opts"].get("inline_types") and _long_type(ir):
+            return "C18-D20-wrapped-type-line-keeps-the-line-break"
+        return None
 
     def classify_kind(self, c, fl):
         return None
@@ -307,6 +321,10 @@ class AstKindProp(Prop):
 
     def code_breaks(self, c, is_return, typ, code):
         return code_breaks_roundtrip(self.kind, is_return, typ, code, c["opts"].get("emit_default_doc", True))
+
+
+def _long_type(ir, width=100):
+    return any(len(p.get("typ") or "") + len(n) + 24 > width for n, p, _ in _entries(ir))
 
 
 def _would_wrap(ir, width=100):
